@@ -5,7 +5,9 @@ from hypothesis import strategies as st
 BOOL_IDS = ["a", "b", "c", "d", "e", "f", "g", "h"]
 INT_IDS = ["i0", "i1", "i2", "i3"]
 CONCAT_IDS = ["a", "b", "ab", "c", "bc", "abc"]
-ODD_IDS = ["Zz", "0k", "_u", "~w", "Ab", "å"]     # sort before / between / after the compound ids (N.., R.., VAR..)
+ODD_IDS = ["Zz", "0k", "_u", "~w", "Ab", "å",     # sort before / between / after the compound ids (N.., R.., VAR..)
+           "a ", " a", "A", "a\u030a", "b\t"]     # LOOK-ALIKES of other leaf ids: surrounding blanks, case, another unicode composition of 'å'
+
 
 DIRECT = ("AtLeast", "AtMost", "All", "Any")
 DERIVED = ("Xor", "ExactlyOne", "XNor", "Imply", "Not")
